@@ -58,7 +58,6 @@ def run(ctx, rep):
     # ---- O1 parser
     pr.all_attrs_rule(ctx, rep, 'O1', ('serde_default',), 2)
     sites = pr.field_sites(ctx)
-    rep.floor('O1', 'RustField construction sites', len(sites), 2)
     for f, st in sites:
         hv = vt.strip(st['v']['fields'].get('has_default'))
         key = f"{f['name']}:has_default"
@@ -76,13 +75,9 @@ def run(ctx, rep):
                 same = vt.show(vt.strip(idv['args'][1])) == vt.show(vt.strip(a))
             ok = ok and same
         rep.check(ok, 'O1', key, 'has_default = serde_default(<this field>.attrs)', f"{f['name']}: RustField.has_default is not serde_default of the field's own attributes: {vt.show(st['v']['fields'].get('has_default'))[:100]}", site)
-    callee, names, consts = pr.attr_lookup_spec(ctx, 'serde_default')
-    rep.check(callee == 'serde_attr' and names == ['default'], 'O1', 'serde_default:name', 'looks for the bare path `default`', f'serde_default looks for {names} via {callee}', {'file': 'core/src/parser.rs', 'line': ctx.fn('serde_default', file='parser.rs')['line']})
-    sa = ctx.fn('serde_attr', file='parser.rs')
-    import json as _json
-    txt = _json.dumps(sa['tail'])
-    ok = '"SERDE"' in txt and 'Meta :: Path' in txt and '"is_ident"' in txt and '"root": "ident"' in txt and '"any"' in txt
-    rep.check(ok, 'O1', 'serde_attr:bare-path-under-serde', 'matches Meta::Path(ident) inside #[serde(..)]', f'serde_attr does not test for a bare path under the serde namespace: {txt[:160]}', {'file': sa['file'], 'line': sa['line']})
+    closed, open_ = pr.lookup_closed(ctx, 'serde_default')
+    sd = ctx.fn('serde_default', file='parser.rs')
+    rep.check(closed == {('SERDE', 'default', 'Path')} and not open_, 'O1', 'serde_default:bare-path-under-serde', 'looks for the bare path `default` inside #[serde(..)]', f'serde_default looks for {sorted(closed)} {sorted(map(str, open_))} — expected the bare path `default` of #[serde(..)] only (`default = "path"` is a different attribute and out of the property)', {'file': sd['file'], 'line': sd['line']})
     # ---- O2/O3/O4 printers
     n_eval = 0
     for be, fnames in FIELD_PRINTERS.items():
@@ -92,7 +87,7 @@ def run(ctx, rep):
         inline = {g['name']: g for g in fns if g.get('nested_in')}
         lines_seen = 0
         for fname in fnames:
-            f = ctx.fn(f'{struct}::{fname}', file=file)
+            f = ctx.fnx(f'{struct}::{fname}', file=file)
             for s in f['sites']:
                 has_field_id = any(c.startswith('RustField.id') for c in emit.canons_in_deep(T, s['fmt']))
                 has_type = any(c.get('f') == 'format_type' for c in vt.calls_in(s['fmt']))
